@@ -7,16 +7,36 @@ import z3
 
 Z3_TIMEOUT_MS = int(os.environ.get('PYVC_Z3_TIMEOUT_MS', '10000'))
 CVC5_TIMEOUT_S = int(os.environ.get('PYVC_CVC5_TIMEOUT_S', '30'))
-FEAS_TIMEOUT_MS = 2000
+FEAS_TIMEOUT_MS = 1000
 
 stats = {'z3_queries': 0, 'z3_ms': 0.0, 'cvc5_queries': 0, 'cvc5_ms': 0.0, 'feas_queries': 0}
 
 
+_hq_cache = {}
+
+
+def has_quantifier(e):
+    k = e.get_id()
+    if k in _hq_cache:
+        return _hq_cache[k]
+    r = False
+    if z3.is_quantifier(e):
+        r = True
+    else:
+        for c in e.children():
+            if has_quantifier(c):
+                r = True
+                break
+    _hq_cache[k] = r
+    return r
+
+
 def feasible(pc):
-    """True unless the path condition is certainly unsatisfiable."""
+    """True unless the path condition is certainly unsatisfiable.  Quantified conjuncts are
+    left out (dropping constraints can only make more paths look feasible, which is sound)."""
     s = z3.Solver()
     s.set('timeout', FEAS_TIMEOUT_MS)
-    s.add(*pc)
+    s.add(*[f for f in pc if not has_quantifier(f)])
     stats['feas_queries'] += 1
     t0 = time.time()
     r = s.check()
